@@ -11,8 +11,10 @@ the polynomial itself, which is exactly 'the expression tree handed to the model
 
 
 class Poly:
-    def __init__(self, terms=None):
+    def __init__(self, terms=None, mentions=frozenset()):
         self.terms = {k: v for k, v in (terms or {}).items() if v != 0}
+        # every Binary label of the expression TREE, also those whose terms cancel (PyQUBO's model.variables lists the tree's leaves)
+        self.mentions = frozenset(mentions) | frozenset(x for k in self.terms for x in k)
 
     @staticmethod
     def of(x):
@@ -29,12 +31,12 @@ class Poly:
         t = dict(self.terms)
         for k, v in o.terms.items():
             t[k] = t.get(k, 0) + v
-        return Poly(t)
+        return Poly(t, self.mentions | o.mentions)
 
     __radd__ = __add__
 
     def __neg__(self):
-        return Poly({k: -v for k, v in self.terms.items()})
+        return Poly({k: -v for k, v in self.terms.items()}, self.mentions)
 
     def __sub__(self, o):
         return self + (-Poly.of(o))
@@ -49,12 +51,15 @@ class Poly:
             for k2, v2 in o.terms.items():
                 k = k1 | k2
                 t[k] = t.get(k, 0) + v1 * v2
-        return Poly(t)
+        return Poly(t, self.mentions | o.mentions)
 
     __rmul__ = __mul__
 
     def variables(self):
         return sorted({x for k in self.terms for x in k})
+
+    def mentioned(self):
+        return sorted(self.mentions)
 
     def energy(self, sample):
         return sum(v * all(sample[x] for x in k) for k, v in self.terms.items())
@@ -114,7 +119,7 @@ class Decoded:
 class Model:
     def __init__(self, poly):
         self.poly = poly
-        self.variables = poly.variables()
+        self.variables = poly.mentioned()
 
     def to_bqm(self):
         return ("bqm", self.poly)
